@@ -771,6 +771,40 @@ class C17(EvalProp):
         p = g.get('P', '')
         return not p.startswith('syn:0:')
 
+    def extra(self, ctx, res, g, budget_scale):
+        """C17_garbage_after_path_from_text: a valid path of steps and existence filters (its text is Coq's fchain_path: the
+        driver confirms it on the path alone) followed by a symbol that can neither continue it nor start a function, then
+        anything: `unrecognized input` at exactly the offset of that symbol, near = the rest from there"""
+        r = g.r
+        closers = [c for c in range(33, 127) if not chr(c).isalnum() and chr(c) not in '.[\\(-_ ']
+        pairs = []
+        for i in range(ctx.n(300, 3000) * budget_scale):
+            doc, text, spec, cur = gen_chain(g, filters=0.2 if r.random() < 0.5 else 0.0)
+            tail = chr(r.choice(closers)) + ''.join(r.choice(" .[]()'\"@$*?!=<>&|,:ab01\\~\u00e9\U0001F600") for _ in range(r.randint(0, 6)))
+            ok_case = Case('gp%d' % i, text.encode('utf-8'), [], meta={'family': 'garbage-after-path', 'nsteps': len(spec)})
+            ok_case.keyc = spec
+            bad = Case('gb%d' % i, (text + tail).encode('utf-8'), [], meta={'family': 'garbage-after-path', 'nsteps': len(spec)})
+            pairs.append((ok_case, bad, len(text), tail))
+        flat = [c for a, b, _, _ in pairs for c in (a, b)]
+        go, mo = both_sides(flat)
+        for k, (a, b, npre, tail) in enumerate(pairs):
+            res.evaluations += 1
+            ga, ma, gb, mb = go[2 * k], mo[2 * k], go[2 * k + 1], mo[2 * k + 1]
+            hp = harness_problem(ga) or harness_problem(ma) or harness_problem(gb) or harness_problem(mb)
+            if hp:
+                res.violation('broken-correspondence', 'harness:' + hp[:60], hp, b)
+                continue
+            if ma.get('KP') != '1':
+                res.violation('broken-correspondence', 'harness:fchain_path', 'the path sent is not Coq fchain_path of its steps', a)
+                continue
+            want = 'syn:%d:unrecognized' % npre
+            if gb.get('P') != want or unhx(gb.get('X', '-')) != tail.encode('utf-8') or mb.get('P') != want:
+                res.violation('concrete', sig_of(b, 'garbage-offset'),
+                              'a valid path followed by %r: unrecognized input at offset %d with the rest as excerpt' % (tail, npre), b,
+                              expected={'P': want, 'X': hx(tail.encode('utf-8'))}, observed={'P': gb.get('P'), 'X': gb.get('X'), 'model': mb.get('P')})
+            res.nontrivial.add(b.path)
+            res.dist['garbage-after-path'] += 1
+
     def on_go(self, res):
         def f(c, g):
             p = g.get('P', '')
